@@ -626,7 +626,12 @@ func generate(r *gen.Rand, i int) Input {
 				o = o[:len(o)-1]
 			} else {
 				j := r.Intn(len(o))
-				if o[j] < 0xD800 {
+				switch {
+				case o[j] == 'a' || o[j] == 'b':
+					o[j] -= 32 // differs only in case
+				case o[j] == 'A':
+					o[j] += 32
+				case o[j] < 0xD800:
 					o[j]++
 				}
 			}
